@@ -35,8 +35,8 @@ RFC_EXAMPLES = [u'g:h', u'g', u'./g', u'g/', u'/g', u'//g', u'?y', u'g?y', u'#s'
 def gen_ref(rng):
 	kind = rng.randrange(8)
 	segs = u'/'.join(rng.choice(RSEGS) for _ in range(rng.randrange(1, 6)))
-	q = rng.choice([u'', u'', u'?y', u'?y=1&z', u'?t=12:30', u'?u=http://o/i', u'?a/b', u'?a@b'])
-	f = rng.choice([u'', u'', u'#s', u'#a:b', u'#x/y', u'#//z'])
+	q = rng.choice([u'', u'', u'?y', u'?y=1&z', u'?t=12:30', u'?u=http://o/i', u'?a/b', u'?a@b', u'?a%20b=c%26d', u'?%41=%7e'])
+	f = rng.choice([u'', u'', u'#s', u'#a:b', u'#x/y', u'#//z', u'#a%20b', u'#%41', u'#%C3%A9', u'#a%2Fb?c', u'#%25'])
 	if kind == 0:
 		return rng.choice([u'http', u'https', u'ftp', u'x']) + u'://' + rng.choice([u'b', u'B.c', u'u@b:81']) + u'/' + segs + q + f
 	if kind == 1:
@@ -48,7 +48,7 @@ def gen_ref(rng):
 			segs = u'g' + segs
 		return segs + q + f
 	if kind == 6:
-		return rng.choice([u'?y', u'?y=2#s', u'#s', u'', rng.choice([u'http', u'g', u'mailto', u'x-y']) + u':' + rng.choice([u'', u'/']) + segs + q + f])
+		return rng.choice([u'?y', u'?y=2#s', u'#s', u'', u'#a%20b', u'#%41', u'?a%20b', u'?y#%C3%A9', rng.choice([u'http', u'g', u'mailto', u'x-y']) + u':' + rng.choice([u'', u'/']) + segs + q + f])
 	return rng.choice(RFC_EXAMPLES)
 
 
